@@ -718,7 +718,8 @@ fn gen_miss(rng: &mut Rng, model: &Value, stats: &mut Stats) -> Loc {
 
 pub fn gen_doc(rng: &mut Rng) -> Value {
     let wide = rng.chance(1, 4);
-    let p = DocParams { max_nodes: if wide { 10 + rng.below(12) } else { 6 + rng.below(9) }, max_depth: if wide { 1 + rng.below(2) } else { 1 + rng.below(4) }, names: gen::NAMES_ADV, max_width: if wide { 12 } else { 4 }, long_arrays: true };
+    let big = rng.chance(1, 30);
+    let p = if big { DocParams { max_nodes: 40 + rng.below(40), max_depth: 3 + rng.below(7), names: gen::NAMES_ADV, max_width: 10, long_arrays: true } } else { DocParams { max_nodes: if wide { 10 + rng.below(12) } else { 6 + rng.below(9) }, max_depth: if wide { 1 + rng.below(2) } else { 1 + rng.below(4) }, names: gen::NAMES_ADV, max_width: if wide { 12 } else { 4 }, long_arrays: true } };
     let mut d = gen::gen_doc(rng, &p);
     // pairs of names where one is the JSON-Pointer image / escape image of another, on purpose
     if rng.chance(1, 3) {
